@@ -1337,8 +1337,25 @@ class PassStartHooks(PassHooks):
             self.rows.append((g1(E, 'G:recent'), g1(E, 'JO[1].retry'), g1(E, 'JO[1].flagdying'), g1(E, '$jobargs'), E.trace.list()))
 
 
+def control_int_cell(db, fname, default):
+    """the object control_readint() fills from the named control file (by the call site's arguments, so a renamed variable is still found)"""
+    prog = db.program('qmail-send')
+    for f_ in prog.functions():
+        if f_.unit != 'qmail-send.c':
+            continue
+        for c_ in f_.calls('control_readint'):
+            if len(c_.args) > 1 and c_.args[1] is not None and c_.args[1].string == fname and c_.args[0] is not None:
+                t = c_.args[0].strip()
+                while t is not None and t.k in ('un', 'cast') and t.args:
+                    t = t.args[0].strip()
+                if t is not None and t.path():
+                    return t.path()
+    return default
+
+
 def analyse_pass_start(db, rep):
     prog = db.program('qmail-send')
+    life = control_int_cell(db, 'control/queuelifetime', 'G:lifetime')
     fn = prog.fn('pass_dochan', 'qmail-send.c')
     bad = {}
     n = 0
@@ -1346,7 +1363,7 @@ def analyse_pass_start(db, rep):
         for recent in (1050, 1100, 1101, 5000):
             H = PassStartHooks(c)
             eng = Engine(db, prog, H)
-            eng.run(fn, {'%s::%s' % (eng.frame_id(fn), fn.params[0]): fs(c), 'G:pass[%d].id' % c: fs(0), 'G:flagexitasap': fs(0), 'G:recent': fs(recent), 'G:lifetime': fs(100)})
+            eng.run(fn, {'%s::%s' % (eng.frame_id(fn), fn.params[0]): fs(c), 'G:pass[%d].id' % c: fs(0), 'G:flagexitasap': fs(0), 'G:recent': fs(recent), life: fs(100)})
             rep.count_states(eng.states, eng.transitions)
             for rc, retry, dying, jargs, tr in H.rows:
                 n += 1
